@@ -299,7 +299,7 @@ func init() {
 	RegisterPlan("C03", func(tier string) *Plan {
 		return &Plan{
 			Prop: "C03", Level: "exploration", Engine: "medium",
-			Runs:   tierPick(tier, 3000, 300000),
+			Runs:   tierPick(tier, 8000, 1000000),
 			Budget: tierPick(tier, 50*time.Second, 12*time.Minute),
 			Rule: "valid CARv1/CARv2 images (collision alphabet: equal multihash under several codecs and CIDv0, equal digest under different hash codes, identity, truncated digests, duplicates; data padding; null padding with ZeroLengthSectionAsEOF) built by the reference codec; for each image every index producer (GenerateIndex and LoadIndex into car-index-sorted, car-multihash-index-sorted and the insertion index; ReadOrGenerateIndex) x every capability profile of the source x 2 delivery plans, x StoreIdentityCIDs x MaxIndexCidSize. Oracle: GetAll of every section CID and of near-miss/fresh probe CIDs equals the reference scan's offset set for that key (multihash / digest; anything between for the insertion index), ErrNotFound for absent keys, ForEach equals the section multiset, over-long CID -> ErrCidTooLarge. " +
 				"An evaluation is one (image, producer, profile, delivery); distinct non-trivial = distinct (image shape+options, producer, profile, delivery class)",
